@@ -1,4 +1,5 @@
 import SparseSpace.Properties.C04
+import SparseSpace.Properties.C04b
 #print axioms SparseSpace.C04.interp_reproduces_pl
 #print axioms SparseSpace.C04.trap_exact_pl
 #print axioms SparseSpace.C04.trap_exact_affine
@@ -23,3 +24,7 @@ import SparseSpace.Properties.C04
 #print axioms SparseSpace.C04.version3_clip_keeps_lmin_level
 #print axioms SparseSpace.C04.dimwise_version3_lmin2_repaired
 #print axioms SparseSpace.C04.dimwise_rebalancing_counterexample
+-- bridge to the refinement model of C03/C06 (Properties/C04b.lean)
+#print axioms SparseSpace.C04b.keep_low_levels
+#print axioms SparseSpace.C04b.direct_form_false
+#print axioms SparseSpace.C04b.keepsInitial_examples
